@@ -271,7 +271,8 @@ Proof.
   - (* known name: the variable table is unchanged *)
     assert (R : forall nm, G (set_vars (cs_ids s) nm (cs_next_var s) s)).
     { intros nm. eapply G_same; [|exact HG]. same3_tac. }
-    destruct (nm_find _ (cs_names s)); [cbn; auto|].
+    destruct (nm_find _ (cs_names s)) as [nm|];
+      [unfold name_checked; destruct (global_name_checked && negb (str_eqb nm n)); cbn; auto|].
     destruct (ht_entry_hangs (cs_names s)); cbn; auto.
   - destruct (ht_entry_hangs (cs_ids s)); [exact I|].
     assert (R : forall nm, G (set_vars (nm_insert h (cs_next_var s) (cs_ids s)) nm
@@ -293,7 +294,8 @@ Proof.
         + apply I3.
       - intros h' id' E. rewrite nm_find_insert. destruct (N.eqb_spec h' h) as [->|]; [|auto].
         rewrite (I4 _ _ E) in Ef. discriminate. }
-    destruct (nm_find _ (cs_names s)); [cbn; destruct (R (cs_names s)); auto|].
+    destruct (nm_find _ (cs_names s)) as [nm|];
+      [unfold name_checked; destruct (global_name_checked && negb (str_eqb nm n)); cbn; [exact I|]; destruct (R (cs_names s)); auto|].
     destruct (ht_entry_hangs (cs_names s)); cbn; [exact I|].
     destruct (R (nm_insert (handle_from_u32 (cs_next_var s)) n (cs_names s))); auto.
 Qed.
